@@ -678,6 +678,53 @@ def w2(ctx, rep):
     return n
 
 
+def w2_freelist(ctx, rep):
+    """the page numbers at which the copy-on-write free-list pages are written pre-meta (the `new_pages`
+    produced by FreeList::preallocate) can only originate from the clean free list (FreeList::pop), from a
+    portion page that was itself drawn from the free list in this call (released_portions.pop, see the loop
+    invariant in preallocate) or from the bump; never from the pages freed in this sync (`to_push`)."""
+    fn = "nomt::beatree::allocator::free_list::FreeList::preallocate"
+    body = ctx.facts.body(fn)
+    sh = short(fn)
+    n = 0
+    # the returned vector
+    ret_locals = set()
+    for r in trace(body, {"l": 0}):
+        pass
+    pushes = []
+    for b, t in body.calls():
+        c = t.get("callee") or ""
+        if c == "alloc::vec::Vec::push" and t["args"]:
+            # receiver must be the returned vector: a local (not a parameter, not a field of self)
+            rs = roots(body, t["args"][0])
+            is_param = any(r.kind == "param" for r in rs)
+            if not is_param:
+                pushes.append((b, t))
+    rep.floor("W2 free-list new_pages push sites", len(pushes), 3)
+    ALLOWED_SRC = ("nomt::beatree::allocator::free_list::FreeList::pop",)
+    for (b, t) in pushes:
+        n += 1
+        bad = []
+        srcs = []
+        for r in roots(body, t["args"][1]):
+            if r.kind == "call" and r.what in ALLOWED_SRC:
+                srcs.append("FreeList::pop")
+            elif r.kind == "call" and r.what == "alloc::vec::Vec::pop" and r.obj and any("released_portions" in rr.fields for rr in roots(body, r.obj["args"][0])):
+                srcs.append("released_portions.pop")
+            elif r.kind == "param" and r.what == 3:
+                srcs.append("*bump")
+            elif r.kind in ("const", "agg") and not r.fields:
+                continue
+            else:
+                what = r.what if r.kind != "param" else "parameter %s%s" % (body.local_name(r.what) or r.what, "".join("." + f for f in r.fields))
+                if r.kind == "call" and r.obj and r.obj.get("args"):
+                    inner = {body.local_name(rr.what) for rr in roots(body, r.obj["args"][0]) if rr.kind == "param"}
+                    what = "%s on %s" % (what, sorted(x for x in inner if x))
+                bad.append(str(what))
+        rep.check(not bad and bool(srcs), "W2", sh, "new free-list page source", "a page number pushed into the set of free-list pages to be written pre-meta at %s derives from %s: only FreeList::pop, released_portions.pop and the bump may supply it (a page freed in this sync is still referenced by the previous image)" % (t.get("ln"), bad), site=t.get("ln"), detail="push at %s <- %s" % (t.get("ln"), sorted(set(srcs))))
+    return n
+
+
 def w3(ctx, rep):
     """free-list mutators (&mut FreeList methods) are callable only from SyncFinisher::finish and FreeList itself"""
     FL = "nomt::beatree::allocator::free_list::FreeList"
